@@ -1,6 +1,6 @@
 From RsdnsModel Require Import Base Client Timed.
 From RsdnsModel.Spec Require Import Retry.
-From RsdnsModel.Proofs Require Import ClientProofs TimedProofs TimedUntimed TimedSame.
+From RsdnsModel.Proofs Require Import ClientProofs TimedProofs TimedUntimed TimedSame TimedGeneral.
 From RsdnsModel.Properties Require Import C15.
 Open Scope N_scope.
 Check (C15_armed_within_lifetime : forall elapsed lifetime qt attempt tau,
@@ -74,4 +74,7 @@ Check (C15_all_clients_one_machine : forall smol smol' q lifetime qt buf strateg
   qt_pos qt -> 0 < lifetime ->
   client_query_timed true smol q lifetime qt zero_jit zero_jit buf strategy arrs srv =
   client_query_timed false smol' q lifetime qt zero_jit zero_jit buf strategy arrs srv).
-Print Assumptions C15_armed_within_lifetime. Print Assumptions C15_deadline. Print Assumptions C15_attempt_over_retries. Print Assumptions C15_armed_before_call_deadline. Print Assumptions C15_async_durations_are_configured. Print Assumptions C15_exchange_refines_spec. Print Assumptions C15_schedule_nth. Print Assumptions C15_schedule_complete. Print Assumptions C15_only_answers_matter. Print Assumptions C15_std_is_async. Print Assumptions C15_retries_with_slack. Print Assumptions C15_call_ends_by_deadline. Print Assumptions C15_example. Print Assumptions C15_example_cpu_time. Print Assumptions C15_in_time_is_untimed. Print Assumptions C15_in_time_example. Print Assumptions C15_all_clients_one_machine.
+Check (C15_no_retries_when_disabled : forall std smol q lifetime jit proc eps queue s r t rest,
+  (forall x, jit x <= eps) -> (forall x, proc x <= eps) -> 0 < lifetime ->
+  exchange_of std smol q lifetime None jit proc queue = (s, r, t, rest) -> s = [tq_start q]).
+Print Assumptions C15_armed_within_lifetime. Print Assumptions C15_deadline. Print Assumptions C15_attempt_over_retries. Print Assumptions C15_armed_before_call_deadline. Print Assumptions C15_async_durations_are_configured. Print Assumptions C15_exchange_refines_spec. Print Assumptions C15_schedule_nth. Print Assumptions C15_schedule_complete. Print Assumptions C15_only_answers_matter. Print Assumptions C15_std_is_async. Print Assumptions C15_retries_with_slack. Print Assumptions C15_call_ends_by_deadline. Print Assumptions C15_example. Print Assumptions C15_example_cpu_time. Print Assumptions C15_in_time_is_untimed. Print Assumptions C15_in_time_example. Print Assumptions C15_all_clients_one_machine. Print Assumptions C15_no_retries_when_disabled.
